@@ -33,7 +33,16 @@ META.update({
             "text": "Exploration: each scenario's final build is run under 30 (300 thorough) schedules from one snapshot, biased to states where threads meet in the cache (cleaned byte-identical twins); outcomes compared.", "note": SCHED_NOTE},
 })
 
+META.update({
+    "C11": {"engine": "crash", "technique": "fault enumeration at runtime: snapshot before every file-system mutation (incl. torn writes) of an interrupted invocation, each audited and recovered from by the real build()",
+            "text": "Fault enumeration: within one interrupted build/clean every kill point (every mutation index, three torn variants per write) is materialised as a disk snapshot from a single recorded execution; each is audited (cache content-addressed, nothing lost) and the real build() must recover from it and then behave normally. Scenarios and schedules are sampled.", "note": "trusted base: VSys's crash model (prefix of completed mutations, byte-granular torn writes, atomic command outputs), the reference evaluator"},
+    "C17": {"engine": "contra", "technique": "runtime monitor: forced re-execution with a changed undeclared input; error list, decoded history record and follow-up build compared with expectations",
+            "text": "Exploration over graphs, choice of irreproducible rule, every subset of its outputs, forcing method (delete/tamper) and repetition.", "note": HIST_NOTE},
+    "C18": {"engine": "pair", "technique": "differential runtime monitor: the same history with and without the file-state table under two clock models, plus hash check of every hand-off",
+            "text": "Exploration: paired lock-step histories (as is / table erased before each build) under a distinct-mtime clock and a one-tick-per-invocation clock; any difference in verdict or bytes, or a stale hash handed to a dependent, is a violation.", "note": HIST_NOTE},
+})
+
 NOT_APPLICABLE = [
     {"property_id": p, "reason": "check not built yet in this session (planned in DESIGN.md section 4); not claimed until its monitor exists"}
-    for p in ["C11", "C13", "C14", "C15", "C16", "C17", "C18", "C19"]
+    for p in ["C13", "C14", "C15", "C16", "C19"]
 ]
